@@ -281,6 +281,7 @@ def run(ctx):
     ctx.extra['first_frame_streams_compared'] = nw
     # ------------------------------------------------------------------ authenticated profile name
     class Tok:
+        username = 'account@example.org'       # the account login is NOT the in-game name
         class profile:
             name = 'ProfileName'
 
@@ -299,6 +300,7 @@ def run(ctx):
                       key={'kind': 'profile-name'})
     # ------------------------------------------------------------------ plain status query
     lines, impl = [], []
+    slines, simpl = [], []
     saved_timeit = C.timeit
     try:
         for mode in range(ctx.scale(40, 400)):
@@ -334,6 +336,7 @@ def run(ctx):
                     conn.status(**kw)
                     net.run_threads()
                     closed = net.sockets[0].closed_by_client
+                    raw_status = bytes(net.sockets[0].sent)
             finally:
                 builtins.print = real_print
             srv = cfg['servers'][0]
@@ -363,6 +366,10 @@ def run(ctx):
             if bad:
                 ctx.violation('plain status query: ' + bad, {'do_ping': do_ping, 'mode': mode, 'calls': repr(calls)[:200]},
                               key={'status-mode': [do_ping, hs_mode, hp_mode]})
+            # byte level: handshake + request (+ ping carrying the clock reading) exactly as Model/HandshakeWire
+            slines.append('hswire.first proto=%d host=%s port=25565 next=1%s' % (
+                max(SUP, key=rank.get), b'h'.hex(), ' ping=%d' % t0 if do_ping else ''))
+            simpl.append('ok ' + raw_status.hex())
             acts = []
             if do_ping:
                 acts = ['ping:%d' % t0, 'status', 'disc', 'latency:%d' % (t1 - t0)]
@@ -377,6 +384,10 @@ def run(ctx):
     for line, mo, g in zip(lines, ctx.driver.ask(lines), impl):
         if mo != g:
             ctx.disagree('Connection.status', line, mo, g)
+    for line, mo, g in zip(slines, ctx.driver.ask(slines), simpl):
+        ctx.case(('status-bytes', line))
+        if mo != g:
+            ctx.disagree('plain status query bytes', line, mo, g)
 
 
 def replay(ctx, rp):
